@@ -167,6 +167,10 @@ pub struct Cli {
     pub host_env: Vec<(String, String)>,
     #[serde(default)]
     pub timeout_seconds: Option<u64>,
+    /// the `--[no-]combine-output` / `--[no-]keep-output-crlf` flag that is given is preceded by
+    /// its opposite on the same command line: the later one counts
+    #[serde(default)]
+    pub negated_first: bool,
     /// Some(true) = --combine-output, Some(false) = --no-combine-output
     #[serde(default)]
     pub combine_output: Option<bool>,
